@@ -346,6 +346,56 @@ pub fn run(ctx: &Ctx) {
         "indexcell",
     );
 
+    // an ill-typed element anywhere in a list literal is a type error, also when the list is only searched and an earlier
+    // element already matches (lists of 2-40 elements, the match and the ill-typed element at every relative position)
+    let late: Vec<EvalCase> = {
+        let i = |x: i128| Expr::value(x);
+        let ill: Vec<Expr> = vec![
+            Expr::add(i(1), Expr::Value(Value::Float(1.0))),
+            Expr::div(i(1), Expr::Value(pool::dec(1, 0))),
+            Expr::iif(Expr::value("1".to_string()), i(1), i(2)),
+            Expr::and(i(1), Expr::value(true)),
+            Expr::not(i(1)),
+            Expr::mult(Expr::value("1".to_string()), i(2)),
+            Expr::gt(i(1), Expr::Value(Value::Float(0.0))),
+        ];
+        let mut out = vec![];
+        for n in [2usize, 3, 11, 12, 13, 40] {
+            for (k, bad) in ill.iter().enumerate() {
+                for (hit, badpos) in [(0usize, n - 1), (0, 1), (n - 2, n - 1), (n - 1, 0), (n / 2, n / 2 + 1)] {
+                    if hit == badpos || hit >= n || badpos >= n {
+                        continue;
+                    }
+                    let items: Vec<Expr> = (0..n).map(|p| if p == hit { i(7) } else if p == badpos { bad.clone() } else { i(100 + p as i128) }).collect();
+                    let list = Expr::Vec(items);
+                    let needle = if k % 2 == 0 { i(7) } else { Expr::reff("seven") };
+                    out.push(EvalCase::plain(Expr::contains(list.clone(), needle), pool::map(&[("seven", Value::Int(7))])));
+                    out.push(EvalCase::plain(Expr::index(list, Index::Vec(hit)), Value::None));
+                }
+            }
+        }
+        out
+    };
+    ctx.enumerate(
+        "ill-typed-element-after-a-match",
+        late.len() as u64,
+        true,
+        |i, acc| {
+            let case = &late[i as usize];
+            acc.cell("list:ill-typed-element", true);
+            if i % 41 == 0 {
+                acc.sample("list:ill-typed-element", || case.render());
+            }
+            check_buried(case)
+        },
+        |i| {
+            let mut j = late[i as usize].to_json();
+            j["buried"] = serde_json::json!(true);
+            j
+        },
+        "buried",
+    );
+
     // depth 2 over the coinciding family: every outer kind over every inner cell (e.g. !!i1 must stay a type error)
     let c2 = Cells2::new(vec![
         Value::Int(1),
